@@ -133,6 +133,7 @@ fn main() {
     let n_cases = defs.len() * 3;
 
     if let Some(spec) = &args.child {
+        vcommon::brief_panics();
         let p = prop.clone();
         vcommon::child_loop(spec, n_cases, |idx| run_case(&defs, &p, idx));
     }
